@@ -113,8 +113,12 @@ func ruleReadFull(c *Ctx, r *Rep, tier string) {
 		eofTested := false
 		for _, f := range []*ssa.Function{rm, rl} {
 			allInstrs(f, func(ins ssa.Instruction) {
-				if bo, ok := ins.(*ssa.BinOp); ok && (bo.Op == token.EQL || bo.Op == token.NEQ) && isGlobalLoad(bo.Y, "io", "EOF") {
-					if bo.X == ssa.Value(rlCall) || (rf != nil && dependsOn(bo.X, rf, 0)) {
+				if bo, ok := ins.(*ssa.BinOp); ok && (bo.Op == token.EQL || bo.Op == token.NEQ) {
+					x, y := bo.X, bo.Y
+					if isGlobalLoad(x, "io", "EOF") {
+						x, y = y, x // written the other way round
+					}
+					if isGlobalLoad(y, "io", "EOF") && (x == ssa.Value(rlCall) || (rf != nil && dependsOn(x, rf, 0))) {
 						eofTested = true
 					}
 				}
